@@ -5,6 +5,7 @@ import (
 	"go/constant"
 	"go/token"
 	"go/types"
+	"regexp"
 	"sort"
 	"strings"
 
@@ -77,6 +78,14 @@ func c01registry(c *core.Ctx) {
 		c.Unresolved(R, K+".NewConstraintFromRule / stringer tables of constraint.Type")
 		return
 	}
+	// the dispatch from rule name to constructor: the cases of a switch over the name, or the entries
+	// of a table map[string]func(...) Constraint that the function looks the name up in
+	type dispatch struct {
+		S    string
+		body []ast.Stmt
+		pos  token.Pos
+	}
+	var entries []dispatch
 	var sw *ast.SwitchStmt
 	ast.Inspect(d.Decl.Body, func(n ast.Node) bool {
 		if s, ok := n.(*ast.SwitchStmt); ok && sw == nil {
@@ -84,25 +93,64 @@ func c01registry(c *core.Ctx) {
 		}
 		return true
 	})
-	if sw == nil {
-		c.Bad(R, K+".NewConstraintFromRule:switch", c.P.Pos(d.Decl.Pos()), "rule-name switch", "undecided: no switch over the rule name")
+	if sw != nil {
+		for _, cl := range sw.Body.List {
+			cc := cl.(*ast.CaseClause)
+			for _, e := range cc.List {
+				v := core.ConstOf(d.Pkg, e)
+				if v == nil || v.Kind() != constant.String {
+					continue
+				}
+				entries = append(entries, dispatch{constant.StringVal(v), cc.Body, cc.Pos()})
+			}
+		}
+	} else {
+		ast.Inspect(d.Decl.Body, func(n ast.Node) bool {
+			ix, ok := n.(*ast.IndexExpr)
+			if !ok || len(entries) > 0 {
+				return true
+			}
+			id, isID := ast.Unparen(ix.X).(*ast.Ident)
+			if !isID {
+				return true
+			}
+			init := core.PkgVarInit(d.Pkg, id.Name)
+			cl, isCL := ast.Unparen(init).(*ast.CompositeLit)
+			if init == nil || !isCL {
+				return true
+			}
+			for _, el := range cl.Elts {
+				kv, isKV := el.(*ast.KeyValueExpr)
+				if !isKV {
+					continue
+				}
+				v := core.ConstOf(d.Pkg, kv.Key)
+				if v == nil || v.Kind() != constant.String {
+					continue
+				}
+				if body, _ := funcArgDecl(c, d.Pkg, kv.Value); body != nil {
+					entries = append(entries, dispatch{constant.StringVal(v), body.List, kv.Pos()})
+				} else {
+					entries = append(entries, dispatch{constant.StringVal(v), nil, kv.Pos()})
+				}
+			}
+			return true
+		})
+	}
+	if len(entries) == 0 {
+		c.Bad(R, K+".NewConstraintFromRule:switch", c.P.Pos(d.Decl.Pos()), "rule-name dispatch", "undecided: neither a switch over the rule name nor a lookup in a table of constructors")
 		return
 	}
-	for _, cl := range sw.Body.List {
-		cc := cl.(*ast.CaseClause)
-		for _, e := range cc.List {
-			v := core.ConstOf(d.Pkg, e)
-			if v == nil || v.Kind() != constant.String {
-				continue
-			}
-			S := constant.StringVal(v)
+	{
+		for _, en := range entries {
+			S := en.S
 			key := K + ".NewConstraintFromRule:case:" + S
-			pos := c.P.Pos(cc.Pos())
-			if len(cc.Body) != 1 {
+			pos := c.P.Pos(en.pos)
+			if len(en.body) != 1 {
 				c.Bad(R, key, pos, "case "+S, "undecided: case body is not a single return")
 				continue
 			}
-			ret, ok := cc.Body[0].(*ast.ReturnStmt)
+			ret, ok := en.body[0].(*ast.ReturnStmt)
 			if !ok || len(ret.Results) != 1 {
 				c.Bad(R, key, pos, "case "+S, "undecided: case body is not `return NewX(...)`")
 				continue
@@ -360,11 +408,14 @@ func c01or(c *core.Ctx) {
 		return
 	}
 	// the variable holding the list of checkers
-	listVar := ""
+	listVar, listType := "", ""
 	ast.Inspect(d.Decl.Body, func(n ast.Node) bool {
 		if as, ok := n.(*ast.AssignStmt); ok && len(as.Lhs) == 1 && len(as.Rhs) == 1 {
 			if call, ok := as.Rhs[0].(*ast.CallExpr); ok && strings.HasSuffix(core.ExprStr(call.Fun), ".checkerList") {
 				listVar = core.ExprStr(as.Lhs[0])
+				if t := core.TypeOf(d.Pkg, call); t != nil {
+					listType = t.String()
+				}
 			}
 		}
 		return true
@@ -378,9 +429,21 @@ func c01or(c *core.Ctx) {
 	for n := 0; n <= 3 && bad == ""; n++ {
 		for mask := 0; mask < 1<<n && bad == ""; mask++ {
 			cells++
-			e := &miniEval{pk: d.Pkg, env: map[string]int64{}}
-			e.rng = func(x ast.Expr) ([]int64, bool) {
+			e := &miniEval{pk: d.Pkg, env: map[string]int64{}, ctx: c, helpers: true}
+			isList := func(x ast.Expr) bool {
 				if core.ExprStr(x) == listVar {
+					return true
+				}
+				// the list handed to a helper of the package under another name: same slice type
+				if id, ok := ast.Unparen(x).(*ast.Ident); ok && listType != "" {
+					if t := core.TypeOf(d.Pkg, id); t != nil && t.String() == listType {
+						return true
+					}
+				}
+				return false
+			}
+			e.rng = func(x ast.Expr) ([]int64, bool) {
+				if isList(x) {
 					out := make([]int64, n)
 					for i := range out {
 						out[i] = int64(i)
@@ -396,7 +459,7 @@ func c01or(c *core.Ctx) {
 						return 0, true
 					}
 				case *ast.CallExpr:
-					if core.ExprStr(y.Fun) == "len" && len(y.Args) == 1 && core.ExprStr(y.Args[0]) == listVar {
+					if core.ExprStr(y.Fun) == "len" && len(y.Args) == 1 && isList(y.Args[0]) {
 						return int64(n), true
 					}
 					if sel, ok := y.Fun.(*ast.SelectorExpr); ok && sel.Sel.Name == "Check" {
@@ -406,12 +469,18 @@ func c01or(c *core.Ctx) {
 						case *ast.Ident:
 							idx = e.env[r.Name]
 						case *ast.IndexExpr:
-							if core.ExprStr(r.X) == listVar {
+							if isList(r.X) {
 								idx = e.expr(r.Index)
 							}
 						}
 						if idx >= 0 && idx < int64(n) {
 							return int64(mask>>uint(idx)) & 1, true
+						}
+					}
+					// a helper of the package is evaluated in place
+					if fo, isF := core.Callee(d.Pkg, y).(*types.Func); isF && fo.Pkg() != nil && fo.Pkg().Path() == d.Pkg.PkgPath && fo.Name() != "checkerList" {
+						if hd := c.P.FindDecl(core.Rel(fo.FullName())); hd != nil && hd.Decl.Body != nil && hd.Decl.Recv == nil {
+							return 0, false
 						}
 					}
 					return 0, true // other calls (lexeme getters, error constructors) carry no decision
@@ -425,7 +494,7 @@ func c01or(c *core.Ctx) {
 				bad = "undecided: " + e.unknown
 			case (st == miniPanic) != allFail:
 				bad = core.F("%d alternatives, failing pattern %0*b: refused=%v, expected %v - a value matching one alternative is refused, or a value matching none is accepted", n, n, mask, st == miniPanic, allFail)
-			case n == 1 && allFail && len(e.effects) > 0 && !strings.HasPrefix(e.effects[len(e.effects)-1], "panic(err"):
+			case n == 1 && allFail && len(e.effects) > 0 && !panicOfVar.MatchString(e.effects[len(e.effects)-1]):
 				bad = "with a single alternative the error raised is not that alternative's own: " + e.effects[len(e.effects)-1]
 			}
 		}
@@ -485,3 +554,6 @@ func c01formats(c *core.Ctx) {
 		c.Check(ok && panics, R, w.typ, c.P.Pos(d.Decl.Pos()), core.F("%s.Validate calls %s(%q) and panics on error", w.typ, w.callee, w.arg), "the format validator no longer delegates to the documented parser/layout (or ignores its error): values of the wrong format pass")
 	}
 }
+
+// panicOfVar: `panic(x)` with a plain variable - an error value obtained earlier, not one built on the spot.
+var panicOfVar = regexp.MustCompile(`^panic\([A-Za-z_][A-Za-z0-9_]*\)$`)
